@@ -741,6 +741,204 @@ func (g *gen) randomBehaviours(name string, alphabet []Behaviour, count int, rng
 	return out
 }
 
+// ---------------------------------------------------------------- aliasing triples
+
+// aliasTriples: the SAME value (each time a fresh object with the same content)
+// is written to two different places A and B of one resource - two elements of
+// one list, or the same element of two parents - and a third operation then
+// touches one of them (a child id/extension is added, it is replaced by another
+// value, it is deleted). The judge checks the frame condition on the whole tree
+// after every step, so a write that made A and B share an object, or a lookup
+// that confuses A with B, shows at the third step (and the shared-pointer flag
+// at the second).
+func (g *gen) aliasTriples(name string) []Behaviour {
+	t := newTree(name, g.pool.Ann[name])
+	var out []Behaviour
+	n := 0
+	emit := func(tag string, steps ...OpStep) {
+		n++
+		for i := range steps {
+			steps[i].Text = render(steps[i].Path)
+			if steps[i].Val.Addr == nil {
+				steps[i].Val.Addr = []int{}
+			}
+		}
+		out = append(out, Behaviour{ID: fmt.Sprintf("a/%s/%s%05d", name, tag, n), Res: name, Src: "alias", Steps: steps})
+	}
+	inContained := func(x *lib.Node) bool {
+		for p := x; p != nil; p = t.parent[p] {
+			if p.N == "contained" {
+				return true
+			}
+		}
+		return false
+	}
+	extDonor, haveExt := g.donorFor("Extension", "")
+	// what can be done to an element at path p afterwards
+	thirds := func(p []PStep, w2 *ValSpec) []OpStep {
+		ops := []OpStep{
+			{Op: "add", Path: p, Name: "id", Val: mkStr("String", "al1"), VLabel: "right", Form: "alias/touch"},
+			{Op: "delete", Path: p, Val: nilVal(), VLabel: "none", Form: "alias/delete"},
+		}
+		if haveExt {
+			ops = append(ops, OpStep{Op: "add", Path: p, Name: "extension", Val: donorVal(extDonor), VLabel: "right", Form: "alias/touch"})
+		}
+		if w2 != nil {
+			ops = append(ops, OpStep{Op: "replace", Path: p, Val: *w2, VLabel: "right", Form: "alias/replace"})
+		}
+		return ops
+	}
+	writable := func(f *Field) []labelled {
+		var vs []labelled
+		for _, v := range g.valuesFor(f, nil) {
+			if v.label == "right" || v.label == "sib" {
+				vs = append(vs, v)
+			}
+		}
+		return vs
+	}
+	pick := func(vs []labelled) ([]labelled, func(int) *ValSpec) {
+		// up to three values to write (converted sibling values first: they are
+		// rebuilt by the implementation), and for each a different one to replace with
+		var order []labelled
+		for _, v := range vs {
+			if v.label == "sib" {
+				order = append(order, v)
+			}
+		}
+		for _, v := range vs {
+			if v.label == "right" {
+				order = append(order, v)
+			}
+		}
+		if len(order) > 3 {
+			order = order[:3]
+		}
+		other := func(i int) *ValSpec {
+			for j := range vs {
+				a, b := vs[j].val, order[i].val
+				if a.Src != b.Src || a.Mk != b.Mk || a.S != b.S || a.I != b.I || a.Res != b.Res || fmt.Sprint(a.Addr) != fmt.Sprint(b.Addr) {
+					return &vs[j].val
+				}
+			}
+			return nil
+		}
+		return order, other
+	}
+	// (1) existing elements of the same field of the same parent type
+	groups := map[string][]*lib.Node{}
+	var keys []string
+	walk(t.ann.Root, func(x *lib.Node) {
+		par := t.parent[x]
+		if par == nil || inContained(x) {
+			return
+		}
+		k := par.Pn + "." + x.N
+		if _, ok := groups[k]; !ok {
+			keys = append(keys, k)
+		}
+		groups[k] = append(groups[k], x)
+	})
+	for _, k := range keys {
+		gr := groups[k]
+		if len(gr) < 2 {
+			continue
+		}
+		pairs := [][2]*lib.Node{{gr[0], gr[1]}}
+		for i := 1; i < len(gr); i++ {
+			if t.parent[gr[i]] != t.parent[gr[0]] {
+				if i != 1 {
+					pairs = append(pairs, [2]*lib.Node{gr[0], gr[i]})
+				}
+				break
+			}
+		}
+		if t.parent[gr[0]] != t.parent[gr[1]] {
+			for i := 0; i+1 < len(gr); i++ {
+				if t.parent[gr[i]] == t.parent[gr[i+1]] {
+					pairs = append(pairs, [2]*lib.Node{gr[i], gr[i+1]})
+					break
+				}
+			}
+		}
+		fld := findField(g.schema, t.parent[gr[0]].Pn, gr[0].N)
+		vals, other := pick(writable(fld))
+		for _, pr := range pairs {
+			pa, pb := t.indexed(pr[0]), t.indexed(pr[1])
+			for vi, v := range vals {
+				w1 := OpStep{Op: "replace", Path: pa, Val: v.val, VLabel: v.label, Form: "alias/write"}
+				w2 := OpStep{Op: "replace", Path: pb, Val: v.val, VLabel: v.label, Form: "alias/write"}
+				for _, target := range [][]PStep{pa, pb} {
+					for _, third := range thirds(target, other(vi)) {
+						emit("rr", w1, w2, third)
+					}
+				}
+			}
+		}
+	}
+	// (2) the same absent element added to two parents of the same type
+	pgroups := map[string][]*lib.Node{}
+	var pkeys []string
+	walk(t.ann.Root, func(x *lib.Node) {
+		if x.K == "prim" || t.parent[x] == nil || inContained(x) {
+			return
+		}
+		if _, ok := pgroups[x.Pn]; !ok {
+			pkeys = append(pkeys, x.Pn)
+		}
+		pgroups[x.Pn] = append(pgroups[x.Pn], x)
+	})
+	for _, k := range pkeys {
+		gr := pgroups[k]
+		if len(gr) < 2 {
+			continue
+		}
+		a, b := gr[0], gr[1]
+		for _, f := range g.schema[a.Pn] {
+			if f.AnyRes || f.N == "id" || f.N == "extension" || f.N == "modifierExtension" {
+				continue
+			}
+			has := func(x *lib.Node) bool {
+				for _, c := range x.Kids {
+					if c.N == f.N {
+						return true
+					}
+				}
+				return false
+			}
+			if !f.List && (has(a) || has(b)) {
+				continue
+			}
+			fc := f
+			vals, other := pick(writable(&fc))
+			if len(vals) == 0 {
+				continue
+			}
+			if len(vals) > 2 {
+				vals = vals[:2]
+			}
+			pa, pb := t.indexed(a), t.indexed(b)
+			at := func(p []PStep) []PStep {
+				q := cp(p, PStep{K: "field", S: f.N})
+				if f.List {
+					q = append(q, PStep{K: "last"})
+				}
+				return q
+			}
+			for vi, v := range vals {
+				w1 := OpStep{Op: "add", Path: pa, Name: f.N, Val: v.val, VLabel: v.label, Form: "alias/write"}
+				w2 := OpStep{Op: "add", Path: pb, Name: f.N, Val: v.val, VLabel: v.label, Form: "alias/write"}
+				for _, target := range [][]PStep{at(pa), at(pb)} {
+					for _, third := range thirds(target, other(vi)) {
+						emit("aa", w1, w2, third)
+					}
+				}
+			}
+		}
+	}
+	return out
+}
+
 // ---------------------------------------------------------------- gen command
 
 func stableHash(s string) uint32 {
@@ -781,7 +979,7 @@ func cmdGen(outdir string) {
 		lib.Fatal("%v", err)
 	}
 	total, kept := 0, 0
-	for _, name := range []string{"M0", "M2", "MR1", "MR2", "MR3", "MR4"} {
+	for _, name := range []string{"M0", "M2", "M3", "MR1", "MR2", "MR3", "MR4"} {
 		all := g.enumerate(name)
 		total += len(all)
 		sel := all
@@ -813,6 +1011,18 @@ func cmdGen(outdir string) {
 			rb = keep
 		}
 		for _, b := range rb {
+			kept++
+			if err := ew.Write(b); err != nil {
+				lib.Fatal("%v", err)
+			}
+		}
+		// aliasing triples: all in the thorough tier; in the quick tier every triple that
+		// writes a converted (sibling) value and a seeded eighth of the others
+		for _, b := range g.aliasTriples(name) {
+			total++
+			if tier != "thorough" && b.Steps[0].VLabel != "sib" && stableHash(fmt.Sprintf("%d|%s", seed, b.ID))%8 != 0 {
+				continue
+			}
 			kept++
 			if err := ew.Write(b); err != nil {
 				lib.Fatal("%v", err)
